@@ -104,7 +104,7 @@ def run_c14(tier, seed):
     v.assumptions += ["timing cases use time-outs of 1-3 s, stalls of 0.3-0.6 x T (must pass) and judge 408 only within T + 0.5 s scan period + 1.5 s load-scaled slack; nothing is judged inside the scan band",
                       "server-side read segmentation is forced by interposing recv (per-descriptor caps), not left to TCP"]
     return _finish(v, work, counters, distinct, samples + s2, stats,
-                   "size: limits {100,300,512,4096,8192} x total request sizes {limit-1, limit, limit+1, 2*limit, random near} x body kinds (none/Content-Length/chunked) x server read caps (whole, bytewise, random, boundary exactly at the limit) x 1 or 4 workers, exact byte counts; time-outs: (header,body) in {(1,2),(2,1),(1,1),(2,3)} s x 8 stall points (none, after connect, inside request line, inside headers, inside body, slow-but-within, second keep-alive request after an idle gap, body after the header time-out but within the body time-out). distinct = (limit, relation, kind, segmentation, workers) and (setting, stall point, workers)")
+                   "size: limits {100,300,512,4096,8192} x total request sizes {limit-1, limit, limit+1, 2*limit, random near} x body kinds (none/Content-Length/chunked) x server read caps (whole, bytewise, random, boundary exactly at the limit) x 1 or 4 workers, exact byte counts; time-outs: (header,body) in {(1,2),(2,1),(1,1),(2,3)} s x 8 stall points (none, after connect, inside request line, inside headers, inside body, slow-but-within, second keep-alive request after an idle gap, body after the header time-out but within the body time-out, silent connections on descriptor numbers last used by a peer that left with its 408 still queued behind blocked output). distinct = (limit, relation, kind, segmentation, workers) and (setting, stall point, workers)")
 
 def run_c05(tier, seed):
     v = vlib.Verdict("C05", tier, seed, level="exploration")
